@@ -47,7 +47,11 @@ AUX = ('projects', 'users', 'consumer_types', 'placement_aggregates',
 
 class Contract(object):
     def __init__(self, target, name, txns, raises=(), writes=(), result=None,
-                 model=None, method_of=None, excluded=None, guards=None):
+                 model=None, method_of=None, excluded=None, guards=None,
+                 writes_by_txn=None):
+        # writes_by_txn: for several consecutive transactions, the tables
+        # each of them writes (default: every transaction all of `writes`)
+        self.writes_by_txn = writes_by_txn
         # guards: {exception class: fn(I, args, kwargs) -> z3 Bool / bool}:
         # the class can be raised only when the condition holds
         self.guards = dict(guards or {})
@@ -81,7 +85,8 @@ class Contract(object):
             try:
                 if mode == 'W':
                     t = lib.current_txn(I)
-                    for tb in self.writes:
+                    for tb in (self.writes_by_txn[ti] if self.writes_by_txn
+                               else self.writes):
                         I.db.writes.append((tb, 'contract:' + self.name, ()))
                         I.event('db.write', tb, 'contract:' + self.name,
                                 t['id'] if t else None)
@@ -208,7 +213,14 @@ def m_provider_mutator(tables, conflict=E.ResourceProviderConcurrentUpdateDetect
             if exc is not None and issubclass(exc.cls, conflict):
                 raise Undecided.__new__(Undecided)   # infeasible combination
             if exc is None:
-                db.havoc(tables)
+                if c.name == 'ResourceProvider.set_traits':
+                    # nothing to add or remove: _set_traits returns without
+                    # writing (mut._set_traits.bumps_iff: bumps iff it wrote)
+                    txn = lib.current_txn(I)
+                    I.event('mutator.nochange', c.name,
+                            txn['id'] if txn else None)
+                else:
+                    db.havoc(tables)
             return None
         rid, g, ok = cas_provider(I, rp)
         if exc is not None:
@@ -701,7 +713,10 @@ def alloc_side_table():
           writes=('allocations', 'consumers', 'resource_providers'),
           model=m_replace_all),
         C(alloc_obj.delete_all, 'alloc_obj.delete_all', 'WW',
-          writes=('allocations', 'consumers')),
+          writes=('allocations', 'consumers'),
+          # _delete_allocations_by_ids, then delete_consumers_if_no_allocations
+          # (body: props/C18.py:script_delete_all)
+          writes_by_txn=(('allocations',), ('consumers',))),
         C(reshaper_obj.reshape, 'reshaper.reshape', 'W',
           raises=(E.ResourceClassNotFound, E.InvalidInventory,
                   E.InvalidAllocationCapacityExceeded,
